@@ -11,7 +11,7 @@ func ExistsFile(path string) bool {
 }
 
 func OpenFile(path string) *os.File {
-	file, err := os.OpenFile(path, os.O_RDWR, 0)
+	file, err := os.OpenFile(path, os.O_RDWR|os.O_TRUNC, 0)
 	CheckError(err)
 	return file
 }
